@@ -60,8 +60,10 @@ Definition verify_frame (out : bytes) : bool :=
 
 (* one harness case.  [same_err]: the error returned is the inner codec's error
    value; [rt]: 0 = decoding (with the codec or with proto.Unmarshal) did not
-   give back the original message / unknown fields, 1 = it did, 2 = not
-   applicable (inner bytes that are not an encoding of a message). *)
+   give back the original message / unknown fields, 1 = it did (unknown fields
+   = checksum field ++ original unknown fields), 3 = it did and the codec's
+   own Unmarshal stripped the checksum field, 2 = not applicable (inner bytes
+   that are not an encoding of a message, or an error case). *)
 Definition C19_case_ok (inner out : result) (same_err : bool) (rt : N) : bool :=
   match inner, out with
   | Ok p, Ok o => C19_ok p o && C19_fields_ok p o && verify_frame o && negb (rt =? 0)
